@@ -1,0 +1,47 @@
+//! Verification hooks, compiled only with `--cfg clap_verif`.
+//!
+//! Thin wrappers exposing pure internal functions so that an external harness can call them
+//! directly.  Nothing here is reachable without the cfg flag.
+
+use crate::builder::StyledStr;
+
+/// `output::textwrap::wrap`
+pub fn wrap(content: &str, hard_width: usize) -> String {
+    crate::output::textwrap::wrap(content, hard_width)
+}
+
+/// `output::textwrap::core::display_width`
+pub fn display_width(text: &str) -> usize {
+    crate::output::display_width(text)
+}
+
+/// `output::textwrap::word_separators::find_words_ascii_space`
+pub fn find_words(line: &str) -> Vec<String> {
+    crate::output::textwrap::word_separators::find_words_ascii_space(line)
+        .map(|s| s.to_owned())
+        .collect()
+}
+
+/// `StyledStr::wrap` on a string that may contain ANSI escape sequences
+pub fn styled_wrap(styled: &str, hard_width: usize) -> String {
+    let mut s = StyledStr::from(styled.to_owned());
+    s.wrap(hard_width);
+    s.as_styled_str().to_owned()
+}
+
+/// `StyledStr::display_width`
+pub fn styled_display_width(styled: &str) -> usize {
+    StyledStr::from(styled.to_owned()).display_width()
+}
+
+/// Byte ranges of the text (non-escape) segments `StyledStr::iter_text` yields
+pub fn styled_text_segments(styled: &str) -> Vec<(usize, usize)> {
+    let s = StyledStr::from(styled.to_owned());
+    let base = s.as_styled_str().as_ptr() as usize;
+    s.iter_text()
+        .map(|t| {
+            let start = t.as_ptr() as usize - base;
+            (start, start + t.len())
+        })
+        .collect()
+}
